@@ -720,6 +720,10 @@ def mon_c11(tr):
             others = [x for x, (k2, _) in list(pending.items()) + list(now_pending.items()) if k2 == gr["key"] and x != rq_id]
             if others or (st["req"] and st["req"]["req"] != rq_id and st["req"]["key"] == gr["key"] and st["req"]["data"] not in ("-", "")):
                 continue        # another pending value operation / a value-carrying request in the same step: not attributable
+            if [rp for rp in st["replies"] if rp["req"] != rq_id and rp["result"] in (R["TIMEOUT"], R["ERROR"]) and
+                    tr.reqs.get(rp["req"], {}).get("key") == gr["key"] and tr.reqs.get(rp["req"], {}).get("tflag", 0) & 0x1000 and
+                    tr.reqs.get(rp["req"], {}).get("data") not in ("-", "", None)]:
+                continue        # another value-carrying ack-lock of the key was granted from the queue AND rolled back within this same step: the value left behind is its roll-back's, not attributable to this request
             if not ka0 or ka0["locked"] == 0:
                 continue        # nobody holds the key any more: the value went with the last hold
             # requests served by the wake-up pass of the same step report the value from immediately before their own
